@@ -258,12 +258,34 @@ func init() {
 				if k.front == 1 && backing == 3 {
 					backing = 2
 				}
+				// the rest of the Blockstore interface (blockstore front-end): refused writes, HashOnRead,
+				// Index().GetAll -- sprinkled between the queries, and again after Close below
+				var extra VL
+				if k.front == 0 && r.Chance(40) {
+					for _, key := range keys[:1+r.Intn(len(keys))] {
+						kb := VB(key.Bytes())
+						switch r.Intn(5) {
+						case 0:
+							extra = append(extra, VL{VT("put"), kb, VB(r.Bytes(r.Intn(20)))})
+						case 1:
+							extra = append(extra, VL{VT("putmany"), VL{VL{kb, VB(r.Bytes(3))}, VL{VB(keys[0].Bytes()), VB(nil)}}})
+						case 2:
+							extra = append(extra, VL{VT("delete"), kb})
+						case 3:
+							extra = append(extra, VL{VT("hashonread"), vbool(r.Bool())}, VL{VT("has"), kb}, VL{VT("get"), kb})
+						}
+						extra = append(extra, VL{VT("idxgetall"), kb})
+					}
+					// insert the extra operations before the listing / roots at the end
+					qs = append(append(append(VL{}, qs[:len(qs)-2]...), extra...), qs[len(qs)-2:]...)
+					c.Count("history:with-interface-ops")
+				}
 				// histories with Close (blockstore): everything is asked again on the closed store
 				if k.front == 0 && r.Chance(35) {
 					_, hasSup := k.supplied.(VL)
 					cl := VL{VT("close"), vbool(backing == 3 && !hasSup)}
 					after := c07Queries(0, keys[:1+r.Intn(len(keys))])
-					qs = append(append(append(qs, cl), after...), cl, VL{VT("roots")})
+					qs = append(append(append(append(qs, cl), after...), extra...), cl, VL{VT("roots")})
 					c.Count("history:with-close")
 				}
 				expect := VL{VT("valid"), cidsVal(ar.roots), blksVal(ar.blks), vbool(k.idxIDs)}
